@@ -614,11 +614,9 @@ def g_op(S):
             k = rng.choice([x for x in (2, 3, 4, 6) if x != n])
             m = [rng.random() < 0.5 for _ in range(k)]
             S.emit('(tbl mask h%d h%d %s)', dst, h, enc(m))
-            if n == 1:   # the single row is repeated by zipper
-                S.bind(dst, cols, sum(m))
-                S.tags.add('mask-one-row-broadcast')
-            else:
-                S.tags.add('mask-bad-length')
+            # neither one flag per row nor a single flag: ValueError - also for a one-row table (its row used to be
+            # repeated once per flag by zipper: defect C01-M1)
+            S.tags.add('mask-one-row-longer-mask' if n == 1 else 'mask-bad-length')
             return
         else:
             m = [rng.random() < 0.6 for _ in range(n)] if n else [rng.random() < 0.5]
@@ -1000,8 +998,12 @@ def laws(rng, tier, ctx):
                 src = before[int(sx[3][1:])]
                 m = proto.dec(sx[4])
                 n0 = len(list(src.values())[0]) if src else 0
+                res = _snap(state[int(sx[2][1:])])
+                n1 = len(list(res.values())[0]) if res else 0
+                if n1 > n0:
+                    yield Finding('violation', case, 'd[mask] has %d rows, the table has %d: a mask selects rows, it cannot add any' % (n1, n0))
+                    break
                 if len(m) == n0:
-                    res = _snap(state[int(sx[2][1:])])
                     if set(res) != set(src) or not all(len(res[c]) == sum(m) and all(
                             _same_cell(x, y) for x, y in zip(res[c], [v for v, tf in zip(src[c], m) if tf])) for c in src):
                         yield Finding('violation', case, 'd[mask] is not the flagged rows in order with all columns')
